@@ -369,6 +369,7 @@ class ImageDescription:
         # if metadata is missing, set default values
         if len(self.json) == 0:
             self._alignment = Alignment(align_requested, AlignmentStatus.empty, False)
+            self.channel_order = (0, 1, 2)
             return
 
         self.pixelsize_um = (
